@@ -352,6 +352,37 @@ pub fn gen_registry(rng: &mut Rng, cfg: &Cfg) -> PortableRegistry {
     // Names that mean something elsewhere in the library (marker types, wrappers, keywords): in a portable registry they are
     // plain strings. Drawn from a side stream so that the main stream (and with it every earlier corpus) stays as it was.
     let mut side = rng.clone();
+    if cfg.mode == Mode::Arbitrary && reg.types.len() >= 2 {
+        match side.below(12) {
+            // the labels are exactly 0..n, but not in position order (two swapped, or all shuffled): a table nobody may "tidy up"
+            0 => {
+                let n = reg.types.len();
+                for (k, t) in reg.types.iter_mut().enumerate() {
+                    t.id = k as u32;
+                }
+                let (a, b) = (side.below(n), side.below(n));
+                let (ia, ib) = (reg.types[a].id, reg.types[b].id);
+                reg.types[a].id = ib;
+                reg.types[b].id = ia;
+            }
+            1 => {
+                let n = reg.types.len();
+                let mut ids: Vec<u32> = (0..n as u32).collect();
+                side.shuffle(&mut ids);
+                for (t, id) in reg.types.iter_mut().zip(ids) {
+                    t.id = id;
+                }
+            }
+            // an entry that occurs twice, label and definition alike
+            2 => {
+                let k = side.below(reg.types.len());
+                let copy = reg.types[k].clone();
+                let at = side.below(reg.types.len() + 1);
+                reg.types.insert(at, copy);
+            }
+            _ => {}
+        }
+    }
     if side.chance(1, 5) {
         const LOADED: [&str; 14] = ["PhantomData<T>", "PhantomData", "core::marker::PhantomData<u8>", "::core::marker::PhantomData<(A, B)>", "marker::PhantomData<&'static T>", "Compact<u32>",
                                     "Box<PhantomData<T>>", "BitVec<u8, Lsb0>", "Self", "crate::Foo", "()", "!", "dyn Any", "<T as Trait>::Out"];
